@@ -100,6 +100,19 @@ def _short(x, n=200):
     return s if len(s) <= n else s[:n] + "..."
 
 
+def _cost(t):
+    try:
+        if "cost" in t:
+            return t["cost"]
+        kw = t.get("kwargs") or {}
+        cyc = bool(t.get("cyc")) or "Cycles" in str(t.get("cls", ""))
+        k = kw.get("k") or t.get("k") or 1
+        extra = 5 if (t.get("starts") or t.get("ends") or kw.get("additional_starts") or kw.get("additional_ends")) else 0
+        return (100 if cyc else 0) + 10 * (k if isinstance(k, int) else 1) + extra + len(t.get("edges") or [])
+    except Exception:
+        return 0
+
+
 def run_tasks(fn, tasks, procs=None, deadline_s=None, label=""):
     """Run fn(task) for every task in a fork pool; stop handing out tasks after the deadline."""
     procs = procs or min(16, os.cpu_count() or 4)
@@ -109,6 +122,9 @@ def run_tasks(fn, tasks, procs=None, deadline_s=None, label=""):
     if not tasks:
         return acc
     t0 = time.time()
+    # longest-first: the expensive cases (cyclic, larger k, additional starts/ends) are handed out first so that one slow
+    # case does not end up alone at the deadline
+    tasks = sorted(tasks, key=_cost, reverse=True)
     ctx = mp.get_context("fork")
     with ctx.Pool(min(procs, len(tasks)), maxtasksperchild=50) as pool:
         it = pool.imap_unordered(_run_task, [(fn, t) for t in tasks], chunksize=1)
